@@ -35,7 +35,7 @@ def conn_event(status):
 
 
 P_CLOSE_EVENT = tlv(257, b"")                                   # ConnectionCloseEvent (no fields)
-P_HOPPING = tlv(247, struct.pack(">HH", 1, 2))                  # HoppingEvent
+P_HOPPING = tlv(247, struct.pack(">H", 1))                      # HoppingEvent (this library's layout: HopTableID only)
 P_ANTENNA = tlv(255, struct.pack(">BH", 1, 1))                  # AntennaEvent
 P_EXCEPTION = tlv(252, struct.pack(">H", 2) + b"hi")            # ReaderExceptionEvent{message "hi"}
 
@@ -259,7 +259,7 @@ def pred_c08(script, go, cls):
             note("write-before-first-message", "step %d: frame typ %d written before the first message was received" % (i, f["typ"]))
             return
         if good is not True:
-            note("write-after-rejected-first-message:" + cls["cls"].split("-")[0],
+            note("write-after-rejected-first-message:" + cls["cls"],
                  "step %d: frame typ %d written although the first message was %s" % (i, f["typ"], cls["cls"]))
             return
         is_caller = key in req_keys
@@ -311,10 +311,10 @@ def pred_c08(script, go, cls):
                 note("write-before-successful-connection-event", "step %d: the client called Write %d time(s) (%d bytes) though no "
                      "successful connection event had been accepted (first message: %s)" % (i, o["wcalls"], o.get("nwritten", 0), cls["cls"]))
             if delivered and good is False and (o.get("closed") is False):
-                note("attempt-proceeds-on-bad-first-message:" + cls["cls"].split("-")[0],
+                note("attempt-proceeds-on-bad-first-message:" + cls["cls"],
                      "step %d: the client is not closed after a first message that is %s" % (i, cls["cls"]))
         if op == "wait_connect" and delivered and good is False and o.get("res") in ("blocked", "nil"):
-            note("attempt-proceeds-on-bad-first-message:" + cls["cls"].split("-")[0],
+            note("attempt-proceeds-on-bad-first-message:" + cls["cls"],
                  "step %d: Connect has not failed (%s) after a first message that is %s" % (i, o.get("res"), cls["cls"]))
         if op == "wait_connect" and good is None and peer_closed and o.get("res") in ("blocked", "nil"):
             note("attempt-proceeds-without-first-message", "step %d: Connect has not failed (%s) though the peer closed without "
